@@ -334,8 +334,10 @@ where
                 value_text.push_str(&self.radix_run(10));
             }
 
-            // 1e6 for example:
-            if let Some('e' | 'E') = self.window[0] {
+            // 1e6 for example (an `e` that starts no exponent belongs to the next token: `1.5else`):
+            if matches!(self.window[0], Some('e' | 'E'))
+                && (self.at_exponent() || matches!(self.window[1], Some('_' | '+' | '-')))
+            {
                 if self.window[1] == Some('_') {
                     return Err(LexicalError {
                         error: LexicalErrorType::OtherError("Invalid Syntax".to_owned()),
